@@ -2,6 +2,8 @@
 
 package sim
 
+import "time"
+
 // Plain build: the library is /repo's tree as it is; only the seams are simulated.
 const Instrumented = false
 
@@ -20,3 +22,7 @@ type globalVar struct {
 func globals() []globalVar { return nil }
 
 func LibraryGoroutinePanics() int { return 0 }
+
+func setClock(c func() time.Time)          {}
+func setSleep(h func(d time.Duration))     {}
+func setExit(h func(code int, msg string)) {}
